@@ -102,10 +102,14 @@ def run(ctx):
         spec = C12.small_ruleset(rng, markov_pos=rng.choice([0, 1, 2, 3]), rich=i % 3 == 1, wide=i % 3 == 2)
         if i == 3:
             spec = adjacent_ulp_spec(rng)
+        if i == 4:
+            # two OMEN levels listed with exactly the same probability
+            spec = adjacent_ulp_spec(rng)
+            spec['omen_prob'] = [['1', '0.27'], ['2', '0.27']]
         d = common.write_ruleset(os.path.join(root, f"c15_{i % 5}"), spec)
         pcfg = common.load_grammar(d)
         units = ss.units_of(pcfg)
-        if not C12.distinct_probs(units):
+        if not C12.distinct_probs(units) and i != 4:
             continue
         full = [l for u in units for l in u[2]]
         uops = C12.unit_ops(units)
